@@ -461,6 +461,11 @@ func (h *history) run() {
 	}
 	h.st = st
 	defer st.Close()
+	if h.p.TTLSec == 1 {
+		// with a 1 s lease a reply later than a third of the lease period is later than any
+		// deadline the client could derive from the lease timing options (ttl/3 = 333 ms)
+		st.SetSlowReply(420 * time.Millisecond)
+	}
 	for i := 0; i < h.p.N; i++ {
 		c := &contender{idx: i, id: fmt.Sprintf("10.0.%d.%d:18001", i/200, 10+i), lastIssue: -1}
 		h.cs = append(h.cs, c)
@@ -629,7 +634,7 @@ func (h *history) burst(si int, step *planStep) bool {
 		ctx := context.Background()
 		if rec.lateReply {
 			var cancel context.CancelFunc
-			ctx, cancel = context.WithTimeout(ctx, leasestore.SlowReplyDelay/3)
+			ctx, cancel = context.WithTimeout(ctx, h.st.SlowReply()/3)
 			defer cancel()
 		}
 		rec.Call = h.lclock.Add(1)
